@@ -96,6 +96,14 @@ type Params struct {
 	// RevokeCurrentCommitment (the link makes the two calls back to back but
 	// releases the channel mutex in between, so e.g. a force close can land there).
 	ProbeMidStep bool `json:"probe_mid_step,omitempty"`
+	// SideWriters adds the terminal action `side>X` in every state: through a
+	// second handle of X's channel that was loaded when the world was created (what
+	// the chain watcher, the arbitrator and the funding manager hold in lnd), every
+	// auxiliary channeldb writer (close/confirmation height, SCID, status flags,
+	// shutdown info, data-loss point, broadcast markers) is called, and after each
+	// the channel re-read from disk must equal the channel read before, except for
+	// the field the writer is documented to set.
+	SideWriters bool `json:"side_writers,omitempty"`
 	// CutOnlyInSync restricts second and later cuts to states where
 	// resynchronisation is still in progress (quick tier of C02/C03).
 	CutOnlyInSync bool `json:"cut_only_in_sync"`
@@ -171,6 +179,9 @@ type party struct {
 	identity *btcec.PublicKey
 	dust     int64
 	opener   bool
+
+	// stale is a second handle of this party's channel, loaded at world start.
+	stale *channeldb.OpenChannel
 
 	needSync       bool
 	lastWasRevoke  bool
@@ -265,6 +276,8 @@ type Stats struct {
 	RevokesChecked  atomic.Int64
 	CrashMidStep    atomic.Int64
 	MaxWrites       atomic.Int64
+	SideWrites      atomic.Int64
+	SideRefused     atomic.Int64
 }
 
 var ctxb = context.Background()
@@ -502,6 +515,15 @@ func New(p Params, report Reporter, stats *Stats) (*World, error) {
 		}
 		w.h = append(w.h, hh)
 	}
+	if p.SideWriters {
+		for i := 0; i < 2; i++ {
+			chans, err := w.pt[i].db.ChannelStateDB().FetchOpenChannels(w.pt[i].identity)
+			if err != nil || len(chans) != 1 {
+				return nil, fmt.Errorf("stale handle: %d channels, %v", len(chans), err)
+			}
+			w.pt[i].stale = chans[0]
+		}
+	}
 	w.checkAll("init")
 	return w, nil
 }
@@ -663,6 +685,13 @@ func (w *World) Enabled() []string {
 			}
 		}
 	}
+	if w.P.SideWriters {
+		for i := 0; i < 2; i++ {
+			if !w.pt[i].needSync {
+				acts = append(acts, "side>"+w.pt[i].name)
+			}
+		}
+	}
 	if w.P.CrashPoints && w.cuts < w.P.MaxCuts {
 		// A step that performs W>=2 durable writes has W-1 interior crash
 		// points (k=0 and k=W coincide with a cut before/after the step).
@@ -716,7 +745,7 @@ func (w *World) Terminal() {
 // Do performs one action.
 func (w *World) Do(a string) error {
 	kind := ""
-	if a != "cut" && !strings.HasPrefix(a, "crash") && !strings.HasPrefix(a, "probe>") {
+	if a != "cut" && !strings.HasPrefix(a, "crash") && !strings.HasPrefix(a, "probe>") && !strings.HasPrefix(a, "side>") {
 		kind = w.kindOf(a)
 	}
 	w.hist = append(w.hist, a)
@@ -729,6 +758,8 @@ func (w *World) Do(a string) error {
 		err = w.deliver(int(a[3] - 'A'))
 	case strings.HasPrefix(a, "probe>"):
 		err = w.probeLiveReest(int(a[6] - 'A'))
+	case strings.HasPrefix(a, "side>"):
+		err = w.probeSideWriters(int(a[5] - 'A'))
 	case strings.HasPrefix(a, "crash"):
 		// crash<k>:<X>:<inner action>: party X's k-th durable write from now
 		// succeeds, every later one fails; then both sides reconnect.
